@@ -166,4 +166,293 @@ Proof.
       split; [rewrite <- (seglen_data _ Hc); exact Hsl | exact Hak].
 Qed.
 
+(* ---------------------------------------------------------------------------------------- *)
+(* RCV.NXT and the owed ACK, arithmetic                                                      *)
+(* ---------------------------------------------------------------------------------------- *)
+Lemma ws_grow s s' m :
+  s_remote_seq_no s' = s_remote_seq_no s -> rb_len (s_rx_buffer s') = rb_len (s_rx_buffer s) + m ->
+  tcp_window_start s' = sq (tcp_window_start s + m).
+Proof.
+  intros E1 E2. unfold tcp_window_start. rewrite E1, E2, !seq_add_raw, sq_sq_add. f_equal. lia.
+Qed.
+
+Lemma owed_iff s la j :
+  s_remote_last_ack s = Some la -> 0 <= la < 4294967296 ->
+  tcp_window_start s = sq (la + j) -> 0 <= j <= 2 ^ 30 ->
+  tcp_ack_to_transmit s = (0 <? j).
+Proof.
+  intros Hl Hla Hws Hj. unfold tcp_ack_to_transmit. rewrite Hl, Hws.
+  rewrite (u32_sq_self la) at 1 by (unfold u32; change (2 ^ 32) with 4294967296; lia).
+  change (2 ^ 30) with 1073741824 in Hj.
+  apply seq_lt_sq. change (2 ^ 31) with 2147483648. lia.
+Qed.
+
+Lemma owed_step s s' m :
+  (exists la j, s_remote_last_ack s = Some la /\ 0 <= la < 4294967296 /\
+                tcp_window_start s = sq (la + j) /\ 0 <= j <= 2 ^ 30) ->
+  (exists la j, s_remote_last_ack s' = Some la /\ 0 <= la < 4294967296 /\
+                tcp_window_start s' = sq (la + j) /\ 0 <= j <= 2 ^ 30) ->
+  s_remote_last_ack s' = s_remote_last_ack s ->
+  tcp_window_start s' = sq (tcp_window_start s + m) -> 0 <= m <= 2 ^ 30 ->
+  (tcp_ack_to_transmit s = true \/ 0 < m) ->
+  tcp_ack_to_transmit s' = true.
+Proof.
+  intros (la & j & Hl & Hla & Hws & Hj) (la' & j' & Hl' & Hla' & Hws' & Hj') Hsame Hgrow Hm Hpos.
+  rewrite Hl, Hl' in Hsame. inversion Hsame; subst la'.
+  rewrite (owed_iff s' la j' Hl' Hla Hws' Hj').
+  rewrite (owed_iff s la j Hl Hla Hws Hj) in Hpos.
+  rewrite Hws, sq_sq_add in Hgrow. rewrite Hws' in Hgrow.
+  change (2 ^ 30) with 1073741824 in *.
+  assert (Ej : j' = j + m).
+  { replace (la + j + m) with (la + (j + m)) in Hgrow by lia.
+    apply (sq_inj la j' (j + m)); [change (2 ^ 32) with 4294967296; lia | exact Hgrow]. }
+  destruct Hpos as [Hp | Hp]; lia.
+Qed.
+
+(* ---------------------------------------------------------------------------------------- *)
+(* a segment arrives at the receiver: an ACK of RCV.NXT goes out, or nothing goes out and the  *)
+(* ACK bookkeeping stays                                                                     *)
+(* ---------------------------------------------------------------------------------------- *)
+Lemma y_deliver st p e' :
+  NI st -> safe3 st -> In p (chan_to st y) ->
+  ep_step (net_get st y) (EvSegment (fst p) (wire_parse (snd p))) = Ok e' ->
+  s_remote_seq_no (ep_sock e') = s_remote_seq_no (net_sock st y) /\
+  rb_len (s_rx_buffer (net_sock st y)) <= rb_len (s_rx_buffer (ep_sock e')) /\
+  ((exists q, ep_out e' = ep_out (net_get st y) ++ [q] /\ pure_ack_of (ep_sock e') (Some q))
+   \/ (ep_out e' = ep_out (net_get st y) /\
+       s_remote_last_ack (ep_sock e') = s_remote_last_ack (net_sock st y))).
+Proof.
+  intros HN (HR & HA) Hin He.
+  pose proof (NI_live st y HN) as Iy. unfold net_sock in *.
+  destruct (ow_rcv x st HR) as (Hrw & Hadv & Hrxwf & Hsh). fold y in Hrw, Hadv, Hrxwf, Hsh. unfold net_sock in *.
+  destruct (ep_step_spec _ _ _ He) as (s' & out & tags & Hs & Hk & _ & Hout & _).
+  cbn [tcp_step] in Hs. apply obind_ok in Hs. destruct Hs as (((s1 & rp) & tg) & Hi & Hs).
+  assert (E : s1 = s' /\ out = OReply rp) by (inversion Hs; auto). destruct E as (-> & ->).
+  rewrite (ingress_is_process _ _ _ (ow_acc x st HR y p Hin)) in Hi. unfold net_sock in Hi.
+  pose proof (ow_est x st HR y) as Hst. unfold net_sock in Hst.
+  cbn [wire_out] in Hout. rewrite Hk.
+  destruct (ow_chan x st HR p Hin) as [(Hc & Ha) | (Hc & Ha & Hl)]; unfold net_sock in *.
+  - destruct (process_syn_ignored _ _ _ _ _ _ _ Hst Hc Ha Hi) as (-> & ->).
+    split; [reflexivity|]. split; [lia|]. right. cbn [opt_list] in Hout. rewrite app_nil_r in Hout. auto.
+  - pose proof (ow_ytx x st HR) as Hytx. unfold net_sock in Hytx. fold y in Hytx.
+    assert (Hu : 0 <= s_local_seq_no (ep_sock (net_get st y)) < 4294967296) by apply (li_una _ Iy).
+    assert (Hl30 : l_len (r_payload (wire_parse (snd p))) <= p30) by (unfold TcpRecvWindow.p30; lia).
+    assert (Htx31 : 0 <= rb_len (s_tx_buffer (ep_sock (net_get st y))) < 2147483648) by lia.
+    destruct (process_rcv_mono _ _ _ _ _ _ _ Hst Hrw (adv_open_ok _ Hadv)
+                Hl30 (wire_parse_seq (snd p)) Hc Ha Hu Htx31 Hi)
+      as (_ & Hm & _ & Hsq & _ & _ & Hp & Hn).
+    split; [exact Hsq|]. split; [exact Hm|].
+    destruct rp as [q|]; cbn [opt_list] in Hout.
+    + left. exists q. split; [exact Hout | exact Hp].
+    + right. rewrite app_nil_r in Hout. split; [exact Hout | apply Hn; reflexivity].
+Qed.
+
+Lemma rx_len_bounds st : safe3 st ->
+  0 <= rb_len (s_rx_buffer (net_sock st y)) <= 2 ^ 30.
+Proof.
+  intros (HR & HA). destruct (ow_rcv x st HR) as (_ & _ & ((H1 & H2) & _) & _). fold y in H1, H2.
+  pose proof (as_cap st HA). lia.
+Qed.
+
+(* ---------------------------------------------------------------------------------------- *)
+(* K2: the retransmission, which starts below RCV.NXT, reaches the receiver                   *)
+(* ---------------------------------------------------------------------------------------- *)
+Lemma tracked_below u0 st i p st' :
+  NI st -> safe3 st -> safe3 st' ->
+  una_off (net_get st x) = u0 -> u0 < rcv_off (net_get st y) ->
+  nth_error (chan_to st y) i = Some p ->
+  r_seq_number (snd p) = s_local_seq_no (net_sock st x) ->
+  0 < l_len (r_payload (snd p)) -> r_ack_number (snd p) <> None ->
+  net_step st (NDeliver y i) = Ok st' ->
+  (exists q, chan_to st' x = chan_to st x ++ [q] /\ pure_ack_of (net_sock st' y) (Some q))
+  \/ (chan_to st' x = chan_to st x /\ tcp_ack_to_transmit (net_sock st' y) = true).
+Proof.
+  intros HN HS HS' Hu Hr Hn Hsq Hpl Hak H.
+  pose proof HS as (HR & HA). pose proof HS' as (HR' & HA').
+  unfold net_step in H. fold (chan_to st y) in H. rewrite Hn in H.
+  apply obind_ok in H. destruct H as (e' & He & H). inversion H; subst st'; clear H.
+  assert (Ecx : forall st0, chan_to st0 x = ep_out (net_get st0 y)) by (intros; reflexivity).
+  rewrite !Ecx. unfold net_sock. rewrite !net_get_set_same.
+  destruct (ep_step_spec _ _ _ He) as (s' & out & tags & Hs & Hk & _ & Hout & _).
+  cbn [tcp_step] in Hs. apply obind_ok in Hs. destruct Hs as (((s1 & rp) & tg) & Hi & Hs).
+  assert (E : s1 = s' /\ out = OReply rp) by (inversion Hs; auto). destruct E as (-> & ->).
+  pose proof (nth_error_In _ _ Hn) as Hin.
+  rewrite (ingress_is_process _ _ _ (ow_acc x st HR y p Hin)) in Hi. unfold net_sock in Hi.
+  pose proof (NI_live st y HN) as Iy. pose proof (NI_live st x HN) as Ix. unfold net_sock in Iy, Ix.
+  destruct (ow_rcv x st HR) as (Hrw & (W & HW & Hwe) & _ & _). fold y in Hrw, Hwe. unfold net_sock in Hrw, Hwe.
+  destruct (wire_parse_same (snd p)) as (Wc & Wp & Wsq).
+  destruct (ow_chan x st HR p Hin) as [(_ & Ha) | (Hc & Ha & Hl)]; unfold net_sock in *.
+  { exfalso. unfold wire_parse in Ha. cbn [r_ack_number] in Ha. destruct (r_ack_number (snd p)); [discriminate | congruence]. }
+  destruct (ow_cross x st HR) as (Hcr & Hk0 & Hk1). fold y in Hcr, Hk0, Hk1. unfold net_sock in Hcr, Hk1.
+  set (k := rcv_off (net_get st y) - una_off (net_get st x)) in *.
+  pose proof (ow_txb x st HR) as Htxb. unfold net_sock in Htxb. change (2 ^ 30) with 1073741824 in Htxb.
+  assert (Hux : u32 (s_local_seq_no (ep_sock (net_get st x)))) by apply (li_una _ Ix).
+  assert (Hseq : r_seq_number (wire_parse (snd p)) = seq_norm (tcp_window_start (ep_sock (net_get st y)) - k)).
+  { rewrite Wsq, Hsq, Hcr. change (seq_norm (sq (s_local_seq_no (ep_sock (net_get st x)) + k) - k))
+      with (seq_subn (sq (s_local_seq_no (ep_sock (net_get st x)) + k)) k).
+    rewrite seq_subn_sq. replace (s_local_seq_no (ep_sock (net_get st x)) + k - k) with (s_local_seq_no (ep_sock (net_get st x))) by lia.
+    reflexivity. }
+  assert (Hpl' : 0 < l_len (r_payload (wire_parse (snd p))) <= p30) by (rewrite Wp in *; unfold TcpRecvWindow.p30; lia).
+  assert (Huy : 0 <= s_local_seq_no (ep_sock (net_get st y)) < 4294967296) by apply (li_una _ Iy).
+  pose proof (ow_ytx x st HR) as Hytx. fold y in Hytx. unfold net_sock in Hytx.
+  assert (Htx31 : 0 <= rb_len (s_tx_buffer (ep_sock (net_get st y))) < 2147483648) by lia.
+  pose proof (ow_est x st HR y) as Hst. unfold net_sock in Hst.
+  assert (HW0 : 0 <= W <= p30) by lia.
+  assert (Hk30 : 0 <= k <= p30) by (unfold TcpRecvWindow.p30; lia).
+  destruct (process_data_below _ _ _ _ _ _ _ W k Hst Hrw Hwe HW0 Hseq Hk30 Hpl' Hc Ha Huy Htx31 Hi)
+    as (Sq & _ & _ & [(q & -> & Hp & _) | (-> & Hla & m & Hm & L)]).
+  - left. exists q. cbn [wire_out opt_list] in Hout. rewrite Hk. split; [exact Hout | exact Hp].
+  - right. cbn [wire_out opt_list] in Hout. rewrite app_nil_r in Hout. split; [exact Hout|].
+    rewrite Hk.
+    pose proof (rx_len_bounds _ HS) as B0. pose proof (rx_len_bounds _ HS') as B1.
+    unfold net_sock in B0, B1. rewrite net_get_set_same, Hk in B1.
+    apply (owed_step (ep_sock (net_get st y)) s' m).
+    + pose proof (as_last st HA) as X. unfold net_sock in X. exact X.
+    + pose proof (as_last _ HA') as X. unfold net_sock in X. rewrite net_get_set_same, Hk in X. exact X.
+    + exact Hla.
+    + apply ws_grow; assumption.
+    + lia.
+    + right. lia.
+Qed.
+
+(* ---------------------------------------------------------------------------------------- *)
+(* K3: the receiver owes an ACK.  Any of its events transmits a segment that carries RCV.NXT,  *)
+(* or leaves the ACK owed and the delayed-ACK deadline where it was.                          *)
+(* ---------------------------------------------------------------------------------------- *)
+Lemma dispatch_true_not_failed cx s s' res tags :
+  tcp_dispatch cx s true = Ok (s', res, tags) -> forall p, res <> DEmitFailed p.
+Proof.
+  unfold tcp_dispatch. intros H p E. subst res.
+  destruct (s_tuple s) as [t|]; [|discriminate].
+  destruct (negb (tu_local_addr t =? cx_addr cx)); [discriminate|].
+  obind_inv H. destruct a as (s1, t1). obind_inv H. destruct a as ((s2, go), t2).
+  destruct (negb go); [discriminate|].
+  obind_inv H. destruct a as ((((s3, o), z), k), t3).
+  destruct o as [repr|]; [|discriminate]. cbn [negb] in H.
+  destruct (tcp_dispatch_finish cx s3 repr z k). discriminate.
+Qed.
+
+Lemma ack_to_transmit_same s' s :
+  s_remote_last_ack s' = s_remote_last_ack s -> tcp_window_start s' = tcp_window_start s ->
+  tcp_ack_to_transmit s' = tcp_ack_to_transmit s.
+Proof. intros E1 E2. unfold tcp_ack_to_transmit. rewrite E1, E2. reflexivity. Qed.
+
+Lemma recv_slice_ack s n s' b :
+  tcp_recv_slice s n = Ok (s', b) ->
+  TcpRecvBase.rb_wf (s_rx_buffer s) -> 0 <= n ->
+  s_remote_last_ack s' = s_remote_last_ack s /\ tcp_window_start s' = tcp_window_start s.
+Proof.
+  intros H Hwf Hn. unfold tcp_recv_slice in H. obind_inv H.
+  destruct (rb_dequeue_slice (s_rx_buffer s) n) as (rx, bytes) eqn:Ed.
+  destruct (TcpRecvBase.rb_dequeue_slice_spec _ _ _ _ Hwf Hn Ed) as (_ & _ & _ & Hl & _). cbv zeta in Hl.
+  inversion H; subst s' b; clear H. unfold tcp_window_start. sproj. split; [reflexivity|].
+  rewrite Hl, !seq_add_raw, sq_sq_add. f_equal. lia.
+Qed.
+
+Lemma send_slice_ack s data s' n :
+  tcp_send_slice s data = Ok (s', n) ->
+  s_remote_last_ack s' = s_remote_last_ack s /\ tcp_window_start s' = tcp_window_start s.
+Proof.
+  intros H. unfold tcp_send_slice in H. destruct (negb (tcp_may_send s)); [discriminate|].
+  destruct (rb_enqueue_slice (s_tx_buffer s) data) as (tx, size).
+  destruct (size >? 0); [|inversion H; subst; unfold tcp_window_start; sproj; auto].
+  inversion H; subst s' n; clear H. unfold tcp_window_start.
+  destruct (rb_len (s_tx_buffer s) =? 0); sproj;
+    match goal with |- context [if ?b then _ else _] => destruct b end; sproj; auto.
+Qed.
+
+Definition delack_rel (now : Z) (s' s : socket) : Prop :=
+  s_ack_delay_timer s' = s_ack_delay_timer s \/ s_ack_delay_timer s' = ADImmediate \/
+  (s_ack_delay_timer s = ADIdle /\ exists d, s_ack_delay s = Some d /\ s_ack_delay_timer s' = ADWaiting (now + d)).
+
+Lemma y_event_ack fa st ev ev0 e' :
+  NI st -> safe3 st -> safe3 (net_set st y e') -> fair_ev fa st ev ->
+  sock_event st ev y ev0 -> ep_step (net_get st y) ev0 = Ok e' ->
+  tcp_ack_to_transmit (net_sock st y) = true ->
+  (exists q, ep_out e' = ep_out (net_get st y) ++ [q] /\ r_control (snd q) <> CSyn /\
+             (r_ack_number (snd q) = Some (tcp_window_start (net_sock st y)) \/
+              r_ack_number (snd q) = Some (tcp_window_start (ep_sock e'))))
+  \/ (ep_out e' = ep_out (net_get st y) /\ tcp_ack_to_transmit (ep_sock e') = true /\
+      delack_rel (net_now st y) (ep_sock e') (net_sock st y)).
+Proof.
+  intros HN HS HS' Hfe Hse He Howed.
+  pose proof HS as (HR & HA). pose proof HS' as (HR' & HA').
+  pose proof (NI_live st y HN) as Iy. unfold net_sock in *.
+  destruct (ow_rcv x st HR) as (Hrw & Hadv & Hrxwf & Hsh). fold y in Hrw, Hadv, Hrxwf, Hsh. unfold net_sock in *.
+  destruct (ep_step_spec _ _ _ He) as (s' & out & tags & Hs & Hk & _ & Hout & _).
+  pose proof (ow_est x _ HR' y) as Hst'. unfold net_sock in Hst'. rewrite net_get_set_same, Hk in Hst'.
+  destruct ev; cbn [sock_event] in Hse; try contradiction.
+  - (* a segment arrives *)
+    destruct Hse as (-> & p & Hn & ->).
+    pose proof (nth_error_In _ _ Hn) as Hin.
+    destruct (y_deliver st p e' HN HS Hin He) as (Sq & Hm & [(q & Ho & Hp) | (Ho & Hla)]); unfold net_sock in *.
+    + left. exists q. split; [exact Ho|]. destruct Hp as (Ha & Hc & _). split; [rewrite Hc; discriminate|].
+      right. exact Ha.
+    + right. split; [exact Ho|]. rewrite Hk in *.
+      pose proof (rx_len_bounds _ HS) as B0. pose proof (rx_len_bounds _ HS') as B1.
+      unfold net_sock in B0, B1. rewrite net_get_set_same, Hk in B1.
+      split.
+      * apply (owed_step (ep_sock (net_get st y)) s' (rb_len (s_rx_buffer s') - rb_len (s_rx_buffer (ep_sock (net_get st y))))).
+        -- pose proof (as_last st HA) as X. unfold net_sock in X. exact X.
+        -- pose proof (as_last _ HA') as X. unfold net_sock in X. rewrite net_get_set_same, Hk in X. exact X.
+        -- exact Hla.
+        -- apply ws_grow; [exact Sq | lia].
+        -- lia.
+        -- left. exact Howed.
+      * cbn [tcp_step] in Hs. apply obind_ok in Hs. destruct Hs as (((s1 & rp) & tg) & Hi & Hs).
+        assert (E : s1 = s') by (inversion Hs; reflexivity). subst s1.
+        destruct (ingress_aux _ _ _ _ _ _ _ Hi) as (_ & [D | (_ & [X | X])]);
+          [|rewrite Hst' in X; discriminate | rewrite Hst' in X; discriminate].
+        unfold delack_rel, delack_step, net_now in *. exact D.
+  - (* poll *)
+    destruct Hse as (-> & ->). cbn [fair_ev] in Hfe. subst emit_ok.
+    cbn [tcp_step] in Hs. apply obind_ok in Hs. destruct Hs as (((s1 & rs) & tg) & Hd & Hs).
+    assert (E : s1 = s' /\ out = ODispatch rs) by (inversion Hs; auto). destruct E as (-> & ->).
+    destruct (ow_tuple x st HR y) as (t & Ht & Hta). unfold net_sock in Ht.
+    pose proof (ow_est x st HR y) as Hst. unfold net_sock in Hst.
+    destruct (dispatch_established _ _ _ _ _ _ _ Hst Ht Hta Hd) as (Hack & _).
+    cbn [wire_out] in Hout.
+    destruct rs as [|q|q].
+    + right. cbn [opt_list] in Hout. rewrite app_nil_r in Hout. split; [exact Hout|]. rewrite Hk.
+      destruct (TcpRecvDispatch.dispatch_spec _ _ _ _ _ _ Hrxwf Hsh Hd) as [(Hres & _) | (_ & (_ & Hrx & _ & Hsq & _) & _ & Hl & _)].
+      * unfold TcpRecvDispatch.dispatch_resets in Hres. rewrite Ht, Hta, Z.eqb_refl in Hres. discriminate.
+      * destruct Hl as [(Hl & _) | ((q & Hq) & _)]; [|discriminate].
+        split; [|left; apply (dispatch_nothing_timer _ _ _ _ _ _ Ht Hta Hd)].
+        rewrite (ack_to_transmit_same s' (ep_sock (net_get st y)) Hl); [exact Howed|].
+        unfold tcp_window_start. rewrite Hrx, Hsq. reflexivity.
+    + left. exists q. cbn [opt_list] in Hout. split; [exact Hout|].
+      destruct (Hack q (or_introl eq_refl)) as (Ha & _ & Hc). split; [exact Hc | left; exact Ha].
+    + exfalso. exact (dispatch_true_not_failed _ _ _ _ _ Hd q eq_refl).
+  - (* send *)
+    destruct Hse as (-> & ->). right.
+    cbn [tcp_step] in Hs.
+    destruct (tcp_send_slice (ep_sock (net_get st y)) data) as [(s2, n)|err|] eqn:E; [| |discriminate].
+    + assert (E1 : s2 = s' /\ out = OSize n) by (inversion Hs; auto). destruct E1 as (-> & ->).
+      cbn [wire_out opt_list] in Hout. rewrite app_nil_r in Hout. split; [exact Hout|]. rewrite Hk.
+      destruct (send_slice_ack _ _ _ _ E) as (A1 & A2).
+      split; [rewrite (ack_to_transmit_same _ _ A1 A2); exact Howed|].
+      left. apply (send_slice_auxf _ _ _ _ E).
+    + assert (E1 : s' = ep_sock (net_get st y) /\ out = OErr err) by (inversion Hs; auto). destruct E1 as (E1 & ->).
+      cbn [wire_out opt_list] in Hout. rewrite app_nil_r in Hout. split; [exact Hout|]. rewrite Hk, E1.
+      split; [exact Howed | left; reflexivity].
+  - (* recv *)
+    destruct Hse as (-> & ->). right.
+    cbn [tcp_step] in Hs.
+    destruct (tcp_recv_slice (ep_sock (net_get st y)) (Z.max 0 n)) as [(s2, b)|err|] eqn:E; [| |discriminate].
+    + assert (E1 : s2 = s' /\ out = OBytes b) by (inversion Hs; auto). destruct E1 as (-> & ->).
+      cbn [wire_out opt_list] in Hout. rewrite app_nil_r in Hout. split; [exact Hout|]. rewrite Hk.
+      assert (Hn0 : 0 <= Z.max 0 n) by lia.
+      destruct (recv_slice_ack _ _ _ _ E Hrxwf Hn0) as (A1 & A2).
+      split; [rewrite (ack_to_transmit_same _ _ A1 A2); exact Howed|].
+      left. apply (recv_slice_auxf _ _ _ _ E).
+    + assert (E1 : s' = ep_sock (net_get st y) /\ out = OErr err) by (inversion Hs; auto). destruct E1 as (E1 & ->).
+      cbn [wire_out opt_list] in Hout. rewrite app_nil_r in Hout. split; [exact Hout|]. rewrite Hk, E1.
+      split; [exact Howed | left; reflexivity].
+  - (* close: not in this regime *)
+    destruct Hse as (-> & ->). exfalso.
+    cbn [tcp_step] in Hs. assert (E1 : tcp_close (ep_sock (net_get st y)) = s') by (inversion Hs; reflexivity).
+    pose proof (ow_est x st HR y) as Hst. unfold net_sock in Hst.
+    rewrite <- E1 in Hst'. unfold tcp_close in Hst'. rewrite Hst in Hst'. sproj in Hst'. discriminate.
+Qed.
+
 End Ack.
